@@ -28,6 +28,7 @@ DOCS = [
     [[[]]],
     {"a": True, "b": 1, "c": [1], "d": [True], "e": {"k": 0}, "f": {"k": False}},
     {"x": {"y": {"z": [1, 2]}}},
+    {"a": {"b": 1, "bc": {"d": 2}, "b/c": 3}, "ab": {"b": 4}, "xs": [0, {"k": 1}, 2, 3, 4, 5, 6, 7, 8, 9, {"k": 10}, {"1": 11}]},
 ]
 
 
